@@ -495,6 +495,9 @@ impl<T> vstd::std_specs::convert::TryFromSpecImpl<Vec<T>> for NonEmpty<T> {
     open spec fn obeys_try_from_spec() -> bool { true }
     open spec fn try_from_spec(xs: Vec<T>) -> Result<Self, EmptyError> { if xs@.len() == 0 { Err(EmptyError) } else { Ok(NonEmpty(xs)) } }
 }
+// `impl<T: Clone> ToOwned for T { fn to_owned(&self) -> T { self.clone() } }`
+pub assume_specification<T: Clone> [<T as std::borrow::ToOwned>::to_owned] (t: &T) -> (r: T)
+    ensures call_ensures(T::clone, (t,), r);
 pub assume_specification<T: Clone> [<[T]>::to_vec] (s: &[T]) -> (r: Vec<T>) ensures r@.len() == s@.len();
 pub enum LambdaAST<'input> { Functor(Functor), ValuePath(NonEmpty<ValueAccessor<'input>>) }
 pub struct MapLensResult { pub result: JValue, pub tetraplet: RcSecurityTetraplet }
